@@ -15,7 +15,7 @@ def run(prop, out_path, repo='/repo'):
     results, ok = [], True
     # baseline violations on the unmodified tree are not attributed to a variant
     base = subprocess.run(['/verif/bin/soylint', 'check', '-prop', prop, '-repo', repo, '-no-evidence', '-out', '/verif'],
-                          capture_output=True, text=True, env=env).stdout
+                          capture_output=True, text=True, errors="replace", env=env).stdout
     base_v = set(re.findall(r'^(?:VIOLATED|UNDECIDED) (\S+) (.*?) at ', base, re.M))
     for v in [v for v in VARIANTS if v['prop'] == prop]:
         d = tempfile.mkdtemp(prefix='soyvar.', dir='/tmp')
@@ -32,13 +32,13 @@ def run(prop, out_path, repo='/repo'):
             if not applied:
                 results.append({'name': v['name'], 'status': 'skipped (anchor text absent on this tree)'})
                 continue
-            b = subprocess.run(['go', 'build', './...'], cwd=d, capture_output=True, text=True, env=env)
+            b = subprocess.run(['go', 'build', './...'], cwd=d, capture_output=True, text=True, errors="replace", env=env)
             if b.returncode != 0:
                 results.append({'name': v['name'], 'status': 'variant does not compile', 'detail': b.stderr[-300:]})
                 ok = False
                 continue
             r = subprocess.run(['/verif/bin/soylint', 'check', '-prop', prop, '-repo', d, '-no-evidence', '-out', '/verif'],
-                               capture_output=True, text=True, env=env)
+                               capture_output=True, text=True, errors="replace", env=env)
             found = set(re.findall(r'^(?:VIOLATED|UNDECIDED) (\S+) (.*?) at ', r.stdout, re.M)) - base_v
             fail = 'ANALYSIS-FAILURE' in r.stdout and 'ANALYSIS-FAILURE' not in base
             exp = v.get('expect')
@@ -68,16 +68,16 @@ def run(prop, out_path, repo='/repo'):
         d = tempfile.mkdtemp(prefix='soyvar.', dir='/tmp')
         try:
             subprocess.run(['rsync', '-a', '--exclude', '.git', repo + '/', d + '/'], check=True)
-            pr = subprocess.run(['patch', '-p1', '-s', '--no-backup-if-mismatch', '-i', sd + '/patch.diff'], cwd=d, capture_output=True, text=True)
+            pr = subprocess.run(['patch', '-p1', '-s', '--no-backup-if-mismatch', '-i', sd + '/patch.diff'], cwd=d, capture_output=True, text=True, errors="replace")
             if pr.returncode != 0:
                 results.append({'name': name, 'status': 'skipped (patch does not apply to this tree)'})
                 continue
-            b = subprocess.run(['go', 'build', './...'], cwd=d, capture_output=True, text=True, env=env)
+            b = subprocess.run(['go', 'build', './...'], cwd=d, capture_output=True, text=True, errors="replace", env=env)
             if b.returncode != 0:
                 results.append({'name': name, 'status': 'skipped (patched tree does not compile)'})
                 continue
             r = subprocess.run(['/verif/bin/soylint', 'check', '-prop', prop, '-repo', d, '-no-evidence', '-out', '/verif'],
-                               capture_output=True, text=True, env=env)
+                               capture_output=True, text=True, errors="replace", env=env)
             found = set(re.findall(r'^(?:VIOLATED|UNDECIDED) (\S+) (.*?) at ', r.stdout, re.M)) - base_v
             good = any(x[0] in expect_rules for x in found)
             results.append({'name': name, 'kind': 'must-fire (seeded change)', 'expect': ' or '.join(expect_rules),
@@ -93,14 +93,14 @@ def run(prop, out_path, repo='/repo'):
         d = tempfile.mkdtemp(prefix='soyvar.', dir='/tmp')
         try:
             subprocess.run(['rsync', '-a', '--exclude', '.git', repo + '/', d + '/'], check=True)
-            pr = subprocess.run(['patch', '-p1', '-s', '--no-backup-if-mismatch', '-i', rd + '/patch.diff'], cwd=d, capture_output=True, text=True)
+            pr = subprocess.run(['patch', '-p1', '-s', '--no-backup-if-mismatch', '-i', rd + '/patch.diff'], cwd=d, capture_output=True, text=True, errors="replace")
             if pr.returncode != 0:
                 return {'name': name, 'status': 'skipped (patch does not apply to this tree)'}
-            b = subprocess.run(['go', 'build', './...'], cwd=d, capture_output=True, text=True, env=env)
+            b = subprocess.run(['go', 'build', './...'], cwd=d, capture_output=True, text=True, errors="replace", env=env)
             if b.returncode != 0:
                 return {'name': name, 'status': 'skipped (patched tree does not compile)'}
             r = subprocess.run(['/verif/bin/soylint', 'check', '-prop', prop, '-repo', d, '-no-evidence', '-out', '/verif'],
-                               capture_output=True, text=True, env=env)
+                               capture_output=True, text=True, errors="replace", env=env)
             found = set(re.findall(r'^(?:VIOLATED|UNDECIDED) (\S+) (.*?) at ', r.stdout, re.M)) - base_v
             fail = 'ANALYSIS-FAILURE' in r.stdout and 'ANALYSIS-FAILURE' not in base
             good = not found and not fail
